@@ -6,6 +6,7 @@ import (
 	"fmt"
 	"strings"
 	"time"
+	"verifharness/memdb"
 
 	"seata.apache.org/seata-go/pkg/protocol/branch"
 
@@ -220,7 +221,24 @@ func runC01Multi(c *Ctx, w *ATWorld) {
 		for _, row := range cs.Rows {
 			w.Eng.InsertRows(sc.Table, toMemRow(row))
 		}
+		// every third batch also writes to a SECOND table (the same kind of statement): the images of the two
+		// tables must not be mixed up
+		second := ""
+		if i%3 == 1 {
+			second = w.NewTableName("m2")
+			w.Eng.CreateTable(memdb.TableDef{Name: second, Cols: []memdb.Column{{Name: "k", Type: memdb.TBigInt}, {Name: "w", Type: memdb.TBigInt, Nullable: true}}, PK: []string{"k"}})
+			w.Eng.InsertRows(second, memdb.Row{int64(901), int64(1)}, memdb.Row{int64(902), int64(2)}, memdb.Row{int64(903), int64(3)})
+			extra := "UPDATE " + second + " SET w = w + 10 WHERE k = 902"
+			if kind == 'D' {
+				extra = "DELETE FROM " + second + " WHERE k = 902"
+			}
+			at := r.Intn(len(parts) + 1)
+			parts = append(parts[:at], append([]string{extra}, parts[at:]...)...)
+		}
 		initial := w.DumpTable(sc.Table)
+		if second != "" {
+			initial += " | " + w.DumpTable(second)
+		}
 		w.coord.ResetLog()
 		var execErr error
 		var xid string
@@ -230,7 +248,13 @@ func runC01Multi(c *Ctx, w *ATWorld) {
 				return errors.New("roll the global transaction back")
 			})
 		})
-		mid := w.DumpTable(sc.Table)
+		dump := func() string {
+			if second != "" {
+				return w.DumpTable(sc.Table) + " | " + w.DumpTable(second)
+			}
+			return w.DumpTable(sc.Table)
+		}
+		mid := dump()
 		allOK := true
 		brs := w.coord.RegisteredBranches(xid)
 		for k := len(brs) - 1; k >= 0; k-- {
@@ -239,7 +263,10 @@ func runC01Multi(c *Ctx, w *ATWorld) {
 				allOK = false
 			}
 		}
-		final := w.DumpTable(sc.Table)
+		final := dump()
+		if second != "" {
+			w.Eng.DropTable(second)
+		}
 		c.Out.Case(cid, "C01", "skip", "skip")
 		class := ""
 		switch {
